@@ -56,13 +56,19 @@ fn nfc_add_assign(res: &mut [i128], a: &[i128]) {
     res.iter_mut().zip(a.iter()).for_each(|(r, &ai)| *r = r.wrapping_add(ai));
 }
 
-/// Multiply an `i128` slice by `2^power` in-place (positive = left shift, negative = right shift).
+/// Multiply an `i128` slice by `2^power` in-place (positive = left shift, negative = rounding right shift).
 #[inline(always)]
 fn nfc_mul_pow2_assign(power: i64, x: &mut [i128]) {
     if power > 0 {
         x.iter_mut().for_each(|xi| *xi <<= power as u32);
     } else if power < 0 {
-        x.iter_mut().for_each(|xi| *xi >>= (-power) as u32);
+        // Rounding shift, as `znx_mul_power_of_two_assign_ref` does for i64 limbs.
+        let k: u32 = (-power) as u32;
+        x.iter_mut().for_each(|xi| {
+            let sign_bit: i128 = (*xi >> 127) & 1;
+            let bias: i128 = (1_i128 << (k - 1)) - sign_bit;
+            *xi = xi.wrapping_add(bias) >> k;
+        });
     }
 }
 
